@@ -1,0 +1,23 @@
+//go:build verif
+
+// Lock-discipline contracts for package cache (property C41; comment-only, read by /verif/govc).
+// This file contains no executable code.
+
+package cache
+
+//@ type SegmentCache
+//@   protected_by mu: size, ll, items
+//@   immutable: capacity
+//@   sync: mu
+//@   complete
+
+// cache entries are reachable only through the cache's list/map: every access needs the owning cache's lock
+//@ type cacheEntry
+//@   owner_lock SegmentCache.mu: key, topic, partition, baseOffset, data
+//@   complete
+
+//@ func NewSegmentCache
+//@   returns_fresh
+
+//@ func (c *SegmentCache) evictIfNeeded
+//@   requires_held mu
